@@ -2,6 +2,7 @@ import GoPlugin.Props.C09
 import GoPlugin.Props.C06
 import GoPlugin.Props.C08
 import GoPlugin.Generated.Facts
+import GoPlugin.Props.Hygiene
 /- C09 (MuxBroker part) at the facts extracted from the current source. -/
 namespace GoPlugin.Instance.C09
 open GoPlugin MuxBroker Props.C09
@@ -52,5 +53,8 @@ theorem holds_closed_listener_releases_loop (taken closed : Bool) (h : taken = t
 theorem holds_next_listener_gets_own_stream (tokenPending : Bool) (closed next : Nat) :
     GrpcMux.nextAccepts Facts.grpcMuxClientClose tokenPending closed next = some (GrpcMux.Tag.brokered next) :=
   Props.C09.next_listener_gets_own_stream _ (by decide) tokenPending closed next
+
+theorem holds_one_slot_per_id (together : Bool) : Hygiene.slotsAfterRendezvous Facts.hygiene together = 1 :=
+  Props.Hygiene.one_slot_per_id _ (by decide) together
 
 end GoPlugin.Instance.C09
